@@ -167,6 +167,7 @@ fn main() {
     }
     if ctx.on("builder") {
         lowlevel::run_builder(&mut ctx);
+        lowlevel::run_builder_big(&mut ctx);
     }
     if ctx.on("listvar") {
         lowlevel::run_listvar(&mut ctx);
@@ -179,6 +180,7 @@ fn main() {
         for_each_bitfield!(run_bitbytes, &mut ctx);
         bits::run_bitbytes::<ssz::BitVectorDynamic>(&mut ctx);
         bits::run_withlen(&mut ctx);
+        bits::run_bit_extremes(&mut ctx);
         {
             use typenum::*;
             bits::run_resize::<U8, U8>(&mut ctx);
@@ -203,6 +205,7 @@ fn main() {
     if ctx.on("alloc") {
         alloc::run_alloc_listvar(&mut ctx);
         alloc::run_alloc_large(&mut ctx);
+        alloc::run_alloc_deep(&mut ctx);
     }
     if ctx.on("derive") {
         use derive::run_derive;
